@@ -312,7 +312,10 @@ static int twinCall(int un, const char* c, U32* res) {
         if (!twIovTotal(a(1), a(2), &total)) return 0;
         if (a(2) > (U32)sysconf(_SC_IOV_MAX)) { *res = 28; return 1; }
         buf = malloc(total + 1);
-        if (total == 0 && !pos) { struct iovec z; z.iov_base = buf; z.iov_len = 0; n = readv(tw[a(0)].fd, &z, 1); }   /* a zero-length readv */
+        if (total == 0) {      /* a zero-length vectored read: 0 after the access-mode check, also on a directory */
+            struct iovec z; z.iov_base = buf; z.iov_len = 0;
+            n = pos ? preadv(tw[a(0)].fd, &z, 1, (off_t)q(3)) : readv(tw[a(0)].fd, &z, 1);
+        }
         else n = pos ? pread(tw[a(0)].fd, buf, total, (off_t)q(3)) : read(tw[a(0)].fd, buf, total);
         if (n < 0) { *res = twErrno(errno); free(buf); return 1; }
         for (k = 0; k < a(2) && o < (size_t)n; k++) {
